@@ -254,6 +254,7 @@ def gen_cases(rec, rng, tier):
         yield {'cls': 'random_grammar', 'ref': RG, 'n': nn}
         yield {'cls': 'random_grammar_renamed', 'ref': cfgg.random_var_renaming(rng, RG), 'n': nn, 'hint': rng.choice('SAXQ'), 'start_variable': rng.choice('TSAZ')}
         yield {'cls': 'multichar_variable_names', 'ref': cfgg.multichar_renaming(rng, RG), 'n': min(nn, 4), 'hint': rng.choice(['S', 'AB', 'X']), 'start_variable': rng.choice(['T', 'AB'])}
+        yield {'cls': 'ambiguous_long_rule_tails', 'ref': cfgg.ambiguous_long_rules(rng), 'n': 4}
         for tw in cfgg.start_twins(RG)[:1]:
             yield {'cls': 'same_rules_other_start_variable', 'ref': tw, 'n': min(nn, 4)}
 
